@@ -87,7 +87,8 @@ def c03(tier, seed):
     from . import overlay
     plan = [('UO3', 2, dict(ncfg=60 if tier == 'quick' else None, k1_ops=overlay.HIST_OPS, k2=6 if tier == 'quick' else 60, k3=2 if tier == 'quick' else 20, removal_first=True)),
             ('UOW', 2, dict(ncfg=60 if tier == 'quick' else 400, k1_ops=['remove_file', 'remove_dir', 'remove_dir_all'], k2=4 if tier == 'quick' else 20, removal_first=True, then_parent=True)),
-            ('UOD', 2, dict(ncfg=50 if tier == 'quick' else None, k1_ops=['remove_dir', 'remove_dir_all', 'remove_file'], k2=2 if tier == 'quick' else 20, removal_first=True))]
+            ('UOD', 2, dict(ncfg=50 if tier == 'quick' else None, k1_ops=['remove_dir', 'remove_dir_all', 'remove_file'], k2=2 if tier == 'quick' else 20, removal_first=True)),
+            ('USYM', 2, dict(ncfg=30 if tier == 'quick' else None, k1_ops=['remove_dir', 'remove_dir_all', 'remove_file', 'create_dir_all', 'write'], k2=3 if tier == 'quick' else 30, removal_first=True, then_parent=True))]
     if tier != 'quick':
         plan += [('UO3', 3, dict(ncfg=300, k1_ops=overlay.HIST_OPS, k2=10, removal_first=True)), ('UO4', 2, dict(ncfg=300, k1_ops=overlay.HIST_OPS, k2=10, removal_first=True))]
     return run_onestep('C03', tier, seed, ['mem', 'alt:/a'], ['mem', 'alt:/a', 'alt:/a/b', 'altalt'], ALL_OPS, overlay_plan=plan)
@@ -214,6 +215,7 @@ def ovl_cases(universe, nlayers, props_, seed, ncfg=None, k1_ops=None, k2=0, k3=
 OVL_ASSUMPTIONS = COMMON_ASSUMPTIONS[:4] + [
     'initial layers are type-compatible (a path present in several layers has the same type in each); type conflicts between layers are outside the bound',
     'overlay-reserved names (.whiteout, *_wo inside it) are not used as user names except the *_wo sibling names of universe UOW',
+    'universe USYM: the three entry names are solver variables (lengths 1, 3, 2 over the bytes of {a,b,.,_,U+00E9}, valid UTF-8, siblings distinct); the alphabet cannot spell a reserved name',
     'lower layers are compared through their own observers (exists/metadata/read_dir/read); access times are not compared',
 ]
 
@@ -246,9 +248,12 @@ def c09(tier, seed):
     from . import overlay
     if tier == 'quick':
         plan = [('UO3', 2, dict(k1_ops=overlay.HIST_OPS + overlay.OBS_OPS, k2=12)),
-                ('UO3', 3, dict(ncfg=40, k1_ops=overlay.HIST_OPS))]
+                ('UO3', 3, dict(ncfg=40, k1_ops=overlay.HIST_OPS)),
+                ('USYM', 2, dict(ncfg=30, k1_ops=overlay.HIST_OPS + overlay.OBS_OPS, k2=4))]
     else:
         plan = [('UO3', 2, dict(k1_ops=overlay.HIST_OPS + overlay.OBS_OPS, k2=150, k3=40)),
+                ('USYM', 2, dict(k1_ops=overlay.HIST_OPS + overlay.OBS_OPS, k2=40, k3=10)),
+                ('USYM', 3, dict(ncfg=200, k1_ops=overlay.HIST_OPS, k2=5)),
                 ('UO3', 3, dict(ncfg=400, k1_ops=overlay.HIST_OPS + overlay.OBS_OPS, k2=20)),
                 ('UO4', 2, dict(ncfg=300, k1_ops=overlay.HIST_OPS, k2=20)),
                 ('UO3', 1, dict(k1_ops=overlay.HIST_OPS + overlay.OBS_OPS, k2=30)),
@@ -263,9 +268,12 @@ def c10(tier, seed):
     if tier == 'quick':
         plan = [('UO3', 2, dict(k1_ops=rm, k2=10, k3=4, removal_first=True, recreate=1)),
                 ('UOW', 2, dict(ncfg=60, k1_ops=rm, k2=8, removal_first=True)),
-                ('UO3', 3, dict(ncfg=40, k1_ops=rm, k2=6, removal_first=True, recreate=1))]
+                ('UO3', 3, dict(ncfg=40, k1_ops=rm, k2=6, removal_first=True, recreate=1)),
+                ('USYM', 2, dict(ncfg=30, k1_ops=rm, k2=6, removal_first=True, recreate=1))]
     else:
         plan = [('UO3', 2, dict(k1_ops=rm, k2=105, k3=60, removal_first=True, recreate=2)),
+                ('USYM', 2, dict(k1_ops=rm, k2=40, k3=10, removal_first=True, recreate=2)),
+                ('USYM', 3, dict(ncfg=200, k1_ops=rm, k2=6, removal_first=True, recreate=1)),
                 ('UOW', 2, dict(ncfg=500, k1_ops=rm, k2=40, k3=10, removal_first=True)),
                 ('UO4', 2, dict(ncfg=300, k1_ops=rm, k2=30, k3=10, removal_first=True)),
                 ('UO3', 3, dict(ncfg=400, k1_ops=rm, k2=30, k3=10, removal_first=True)),
@@ -281,12 +289,14 @@ def c08(tier, seed):
     if tier == 'quick':
         plan = [('UO3', 2, dict(k1_ops=overlay.HIST_OPS + overlay.OBS_OPS + overlay.TIME_OPS, k2=6)),
                 ('UO3', 3, dict(ncfg=40, k1_ops=overlay.HIST_OPS + overlay.TIME_OPS)),
+                ('USYM', 2, dict(ncfg=30, k1_ops=overlay.HIST_OPS + overlay.TIME_OPS, k2=3)),
                 ('UO3', 2, dict(ncfg=40, k1_ops=['append', 'write', 'remove_file', 'create_dir_all'], k2_first=['append'], layer_kind='physshared'))]
     else:
         plan = [('UO3', 2, dict(k1_ops=overlay.HIST_OPS + overlay.OBS_OPS + overlay.TIME_OPS, k2=80, k3=20)),
                 ('UO3', 3, dict(ncfg=400, k1_ops=overlay.HIST_OPS + overlay.OBS_OPS + overlay.TIME_OPS, k2=20)),
                 ('UO4', 2, dict(ncfg=300, k1_ops=overlay.HIST_OPS + overlay.TIME_OPS, k2=20)),
                 ('UO3', 4, dict(ncfg=150, k1_ops=overlay.HIST_OPS, k2=5)),
+                ('USYM', 2, dict(k1_ops=overlay.HIST_OPS + overlay.TIME_OPS, k2=30)),
                 ('UO3', 2, dict(k1_ops=overlay.HIST_OPS + overlay.TIME_OPS, k2=10, k2_first=['append', 'write'], layer_kind='physshared'))]
     return run_overlay('C08', tier, seed, plan)
 
@@ -368,7 +378,8 @@ def c04(tier, seed):
 def c05(tier, seed):
     from . import overlay
     plan = [('UO3', 2, dict(ncfg=50 if tier == 'quick' else None, k1_ops=overlay.HIST_OPS, k2=3 if tier == 'quick' else 30, recreate=1)),
-            ('UOW', 2, dict(ncfg=30 if tier == 'quick' else 300, k1_ops=['remove_file', 'remove_dir_all', 'write'], k2=2 if tier == 'quick' else 10))]
+            ('UOW', 2, dict(ncfg=30 if tier == 'quick' else 300, k1_ops=['remove_file', 'remove_dir_all', 'write'], k2=2 if tier == 'quick' else 10)),
+            ('USYM', 2, dict(ncfg=20 if tier == 'quick' else None, k1_ops=overlay.HIST_OPS, k2=2 if tier == 'quick' else 20))]
     if tier != 'quick':
         plan.append(('UO3', 3, dict(ncfg=200, k1_ops=overlay.HIST_OPS, k2=5)))
     return run_onestep('C05', tier, seed, ['mem', 'alt:/a'], ['mem', 'alt:/a', 'alt:/a/b', 'altalt'], onestep.PRIMS + onestep.COMPOSITES + ['exists'],
